@@ -12,8 +12,8 @@
    adm_spec = O_adm, fence_oracle = O_fence_content. *)
 From Coq Require Import List NArith Bool.
 From MV Require Import Base.PyStr Base.Res Nest.Lines Nest.Split Nest.Nest Nest.TreeProofs
-  Nest.SimProofs Nest.WrapSpec Nest.WrapProofs Nest.MoreProofs Nest.SplitProofs Nest.Toy
-  Nest.RefutedProofs.
+  Nest.SimProofs Nest.WrapSpec Nest.WrapProofs Nest.MoreProofs Nest.SplitProofs Nest.Fence Nest.Toy
+  Nest.RefutedProofs Nest.FenceProofs Nest.ShiftProofs.
 Import ListNotations.
 Open Scope N_scope.
 
@@ -40,7 +40,7 @@ Theorem C06_directive_transparent :
   forall (env : Type) (orc : oracles env), adm_spec env orc -> fence_oracle env orc ->
   forall (w : wrapper) (X : list str) (F : nat) (e0 : env), wfW env orc w X ->
     (forall r,
-        expected env orc w X (fun k => den_text_at env orc F false 0 (sh0 e0) (unlines X) k) 1 = Ok r ->
+        expected env orc F w X (fun h k => den_text_at env orc F false 0 h (unlines X) k) (sh0 e0) 1 = Ok r ->
         render_doc env orc (depth w + F) e0 (unlines (print_lines w X)) = Ok (fst (fst r), snd (fst r)))
     /\
     (forall toks e' ns h,
@@ -59,15 +59,15 @@ Print Assumptions C06_directive_transparent.
 
 Theorem C06_backtick_colon_same :
   forall (env : Type) (orc : oracles env), adm_spec env orc -> fence_oracle env orc ->
-  forall name first o len1 len2 X F e0 r,
-    wfW env orc (Adm false name first o Backtick len1) X ->
-    wfW env orc (Adm false name first o Colon len2) X ->
+  forall titled name first o len1 len2 X F e0 r,
+    wfW env orc (Adm titled name first o Backtick len1) X ->
+    wfW env orc (Adm titled name first o Colon len2) X ->
     startswith (unlines (opt_lines o ++ X)) colons3 = false ->
-    expected env orc (Adm false name first o Backtick len1) X
-      (fun k => den_text_at env orc F false 0 (sh0 e0) (unlines X) k) 1 = Ok r ->
-    render_doc env orc (1 + F) e0 (unlines (print_lines (Adm false name first o Backtick len1) X))
+    expected env orc F (Adm titled name first o Backtick len1) X
+      (fun h k => den_text_at env orc F false 0 h (unlines X) k) (sh0 e0) 1 = Ok r ->
+    render_doc env orc (1 + F) e0 (unlines (print_lines (Adm titled name first o Backtick len1) X))
       = Ok (fst (fst r), snd (fst r))
-    /\ render_doc env orc (1 + F) e0 (unlines (print_lines (Adm false name first o Colon len2) X))
+    /\ render_doc env orc (1 + F) e0 (unlines (print_lines (Adm titled name first o Colon len2) X))
       = Ok (fst (fst r), snd (fst r)).
 Proof. intros env orc Hadm Hfence. exact (backtick_colon_same env orc Hadm Hfence). Qed.
 Print Assumptions C06_backtick_colon_same.
@@ -75,7 +75,7 @@ Print Assumptions C06_backtick_colon_same.
 (* include (O_fs = o_fs_read): the document that only includes a file renders to what the
    file's text denotes as a document body (line numbers of the file, the include's
    heading-offset), registries included. O_norm enters as: the text handed to the parser is
-   join "\n" (splitlines file) + "\n". *)
+   join "\n" (split_lines file) + "\n". *)
 Theorem C06_include_transparent :
   forall (env : Type) (orc : oracles env), adm_spec env orc -> fence_oracle env orc ->
   forall f e0 path cls p a args' file iho attrs warns ns h,
@@ -87,7 +87,7 @@ Theorem C06_include_transparent :
     o_include_opts orc (p_optblock p) = (false, iho) ->
     o_opt_validate orc include_name (p_optblock p) = (attrs, warns) ->
     str_eqb a (o_source orc) = false ->
-    den_text_at env orc f true iho (set_incl [a] (sh0 e0)) (join nl (splitlines file) ++ nl) 1
+    den_text_at env orc f true iho (set_incl [a] (sh0 e0)) (join nl (split_lines file) ++ nl) 1
       = Ok (ns, h, false) ->
     render_doc env orc (S f) e0 (unlines (print_lines (Include path) []))
     = Ok (directive_warnings p warns 1 ++ ns, set_incl (removelast (s_incl h)) h).
@@ -112,7 +112,7 @@ Theorem C06_include_in_place :
     = (do s1 <- extend_cur s (directive_warnings p warns position);
        do s2 <- nested_render_text env orc rr
                   (set_shr (set_incl (s_incl (shr s1) ++ [a]) (shr s1)) s1)
-                  (join nl (splitlines file)) 1 false None iho;
+                  (join nl (split_lines file)) 1 false None iho;
        extend_cur (set_shr (set_incl (removelast (s_incl (shr s2))) (shr s2)) s2) []).
 Proof. intros env orc. exact (include_unfolds env orc). Qed.
 Print Assumptions C06_include_in_place.
@@ -187,6 +187,65 @@ Theorem C06_body_offset_colon : forall (os X : list str) o os',
 Proof. exact split_colon. Qed.
 Print Assumptions C06_body_offset_colon.
 
+Theorem C06_body_offset_dash : forall (os X : list str),
+  X <> [] -> all_sepfree os = true -> all_sepfree X = true ->
+  forallb (fun o => negb (startswith o dashes3)) os = true ->
+  parse_directive_text adm_class [] (unlines (opt_lines (ODash os true) ++ X))
+  = Ok {| p_args := []; p_optblock := Some (unlines os); p_body := X;
+          p_off := (length os + 3)%nat;
+          p_warn_split := false; p_warn_content := false |}.
+Proof. exact split_dash. Qed.
+Print Assumptions C06_body_offset_dash.
+
+(* The line relation, exactly.  For documents without include directives (an included file keeps
+   its own line numbers), whose tokens carry a map wherever a default line would be used, and
+   with line-equivariant opaque directives / eval-rst (shift_oracles): rendering a token whose
+   line numbers are all k higher gives the same nodes with every line k higher and the same
+   registries; hence a text rendered at the constant shift k is the text rendered at shift 0
+   with every line + k. *)
+Theorem C06_line_shift_equivariant :
+  forall (env : Type) (orc : oracles env), adm_spec env orc -> shift_oracles env orc ->
+  (forall f top ho h t k, mapped t = true ->
+     den_tok env orc f top ho h (shift_tok k t)
+     = map_res (shift_dres env k) (den_tok env orc f top ho h t))
+  /\ (forall f top ho h text k,
+        den_text_at env orc f top ho h text k
+        = map_res (shift_dres env k) (den_text_at env orc f top ho h text 0)).
+Proof.
+  intros env orc Hadm Hs. split.
+  - intros f. exact (den_tok_shift env orc Hadm Hs f).
+  - intros f top ho h text k. exact (den_text_at_shift env orc Hadm Hs f top ho h text k).
+Qed.
+Print Assumptions C06_line_shift_equivariant.
+
+(* ... so for one admonition layer (any fence, any option layout accepted by the splitter): the
+   wrapped document is the option warnings followed by the admonition node at line 1 whose
+   children are the body's own nodes [ns] with every line number raised by
+   1 + body_offset - prepended_lines, and the body's registries. *)
+Theorem C06_directive_transparent_lines :
+  forall (env : Type) (orc : oracles env), adm_spec env orc -> shift_oracles env orc ->
+  fence_oracle env orc ->
+  forall name first o k len X F e0 p attrs warns ns h b,
+    wfW env orc (Adm false name first o k len) X ->
+    parse_directive_text adm_class first (directive_content k (opt_lines o ++ X)) = Ok p ->
+    o_opt_validate orc name (p_optblock p) = (attrs, warns) ->
+    den_text_at env orc F false 0 (sh0 e0) (unlines X) 0 = Ok (ns, h, b) ->
+    render_doc env orc (1 + F) e0 (unlines (print_lines (Adm false name first o k len) X))
+    = Ok (directive_warnings p warns 1
+          ++ [Node NAdm (name ++ attrs) (Some 1)
+                (map (shift_node
+                        (1 + N.of_nat (p_off p - prepended_lines (is_colon k) (unlines (opt_lines o ++ X)))))
+                     ns)], h).
+Proof. intros env orc Hadm Hs Hf. exact (adm_transparent_exact env orc Hadm Hs Hf). Qed.
+Print Assumptions C06_directive_transparent_lines.
+
+(* O_adm and O_fence_content are jointly satisfiable: the toy instance (Toy.v), whose parser
+   detects fences by the line model of Fence.v (validated against markdown-it by the
+   correspondence), satisfies both. *)
+Theorem C06_oracles_satisfiable : adm_spec bool toy /\ fence_oracle bool toy.
+Proof. split; [exact toy_adm_spec | exact toy_fence_oracle]. Qed.
+Print Assumptions C06_oracles_satisfiable.
+
 (* "... with reference definitions ... inside it remaining usable from the rest of the
    document" does not hold: there are oracles (a parser that, like markdown-it, resolves
    references while it tokenises), a file and a document such that writing the file's lines in
@@ -210,8 +269,8 @@ Example C06_example_transparent :
   render_doc bool toy 6 false (unlines (print_lines (Adm false s_note [] ONone Backtick 3) [[120]]))
   = Ok ([Node NAdm s_note (Some 1) [para k_text [120] 2]], sh0 false)
   /\ render_doc bool toy 6 false (unlines [[120]]) = Ok ([para k_text [120] 1], sh0 false)
-  /\ expected bool toy (Adm false s_note [] ONone Backtick 3) [[120]]
-       (fun k => den_text_at bool toy 5 false 0 (sh0 false) (unlines [[120]]) k) 1
+  /\ expected bool toy 5 (Adm false s_note [] ONone Backtick 3) [[120]]
+       (fun h k => den_text_at bool toy 5 false 0 h (unlines [[120]]) k) (sh0 false) 1
      = Ok ([Node NAdm s_note (Some 1) [para k_text [120] 2]], sh0 false, false).
 Proof. exact toy_note_transparent. Qed.
 
